@@ -189,9 +189,9 @@ where
         Self::new(T::from_be_byte_array(bytes))
     }
 
-    /// Decode a non-zero integer from big endian bytes.
+    /// Decode a non-zero integer from little endian bytes.
     pub fn from_le_byte_array(bytes: ByteArray<T>) -> CtOption<Self> {
-        Self::new(T::from_be_byte_array(bytes))
+        Self::new(T::from_le_byte_array(bytes))
     }
 }
 
